@@ -196,7 +196,7 @@ def model_mc(run, module, pid, cfgs, d, timeout=1500, maxt=6, maxcalls=4, qstep=
     json.dump({"cfgs": cfgs, "qstep": qstep, "maxt": maxt, "maxcalls": maxcalls, "maxsched": 1000}, open(f, "w"))
     inv = MODEL_INV[module]
     invs = [inv[p] for p in PREDS[pid] if p in inv and (only is None or p in only)] + ([inv["_"]] if "_" in inv else [])
-    cfgtxt = "CONSTANTS\n Cfgs <- MCCfgs\n QStep <- MCQStep\n" + MODEL_CONST.get(module, "") + "SPECIFICATION Spec\nVIEW " + view + "\n" + "".join("INVARIANT %s\n" % i for i in invs) + "CHECK_DEADLOCK FALSE\n"
+    cfgtxt = "CONSTANTS\n Cfgs <- MCCfgs\n QStep <- MCQStep\n KeepSched = TRUE\n" + MODEL_CONST.get(module, "") + "SPECIFICATION Spec\nVIEW " + view + "\n" + "".join("INVARIANT %s\n" % i for i in invs) + "CHECK_DEADLOCK FALSE\n"
     r = run_tlc(module + "MC", cfgtxt, files=[(module + "MC.tla", MC_TEMPLATE % {"mod": module})], env={"CFG_FILE": f}, timeout=timeout)
     run.add_mc(module + "MC", r, {"configurations": len(cfgs), "invariants": invs, "maxt": maxt, "maxcalls": maxcalls, "qstep": qstep, "view": view})
     log("phase: %sMC %d configurations, %d distinct states, %.1fs (%s, qstep=%s, maxt=%s)" % (module, len(cfgs), r.distinct, r.wall, view, qstep, maxt))
@@ -208,6 +208,19 @@ def model_mc(run, module, pid, cfgs, d, timeout=1500, maxt=6, maxcalls=4, qstep=
         log("MC: model %s violates %s (to be confirmed on the real code)" % (module, r.violated))
 
 
+def model_live(run, module, cfgs, d, prop, timeout=1500):
+    """Liveness under fairness (TLC, no history variable): e.g. cancelled + inputs closed leads to 'all goroutines gone'."""
+    cfgs = [dict(c, id=i) for i, c in enumerate(cfgs)]
+    f = os.path.join(d, "live_%s.json" % module)
+    json.dump({"cfgs": cfgs, "qstep": False, "maxt": 4, "maxcalls": 3, "maxsched": 1000}, open(f, "w"))
+    cfgtxt = "CONSTANTS\n Cfgs <- MCCfgs\n QStep <- MCQStep\n KeepSched = FALSE\n" + MODEL_CONST.get(module, "").replace("CONSTRAINT Bounded\n", "") + "SPECIFICATION FairSpec\nPROPERTY " + prop + "\nCHECK_DEADLOCK FALSE\n"
+    r = run_tlc(module + "MC", cfgtxt, files=[(module + "MC.tla", MC_TEMPLATE % {"mod": module})], env={"CFG_FILE": f}, timeout=timeout)
+    run.add_mc(module + "MC(liveness:" + prop + ")", r, {"configurations": len(cfgs), "fairness": "FairSpec"})
+    log("phase: %sMC liveness %s: %d configurations, %d distinct states, %.1fs%s" % (module, prop, len(cfgs), r.distinct, r.wall, " VIOLATED" if r.violated else ""))
+    if r.violated:
+        raise Infra("model error: %s violates the liveness property %s under fairness" % (module, prop))
+
+
 def model_gen(run, module, cfgs, d, rng, limit, want_cancel=None, maxt=5, maxcalls=3, maxsched=1000):
     """Schedules from the quiescent-step restriction of the model: one per distinct quiescent state."""
     if not cfgs:
@@ -215,7 +228,7 @@ def model_gen(run, module, cfgs, d, rng, limit, want_cancel=None, maxt=5, maxcal
     cfgs = [dict(c, id=i) for i, c in enumerate(cfgs)]
     f = os.path.join(d, "gen_%s.json" % module)
     json.dump({"cfgs": cfgs, "qstep": True, "maxt": maxt, "maxcalls": maxcalls, "maxsched": maxsched}, open(f, "w"))
-    cfgtxt = "CONSTANTS\n Cfgs <- MCCfgs\n QStep <- MCQStep\n" + MODEL_CONST.get(module, "") + "CONSTRAINT SchedBound\nSPECIFICATION Spec\nVIEW View\nINVARIANT GenEmit\nCHECK_DEADLOCK FALSE\n"
+    cfgtxt = "CONSTANTS\n Cfgs <- MCCfgs\n QStep <- MCQStep\n KeepSched = TRUE\n" + MODEL_CONST.get(module, "") + "CONSTRAINT SchedBound\nSPECIFICATION Spec\nVIEW View\nINVARIANT GenEmit\nCHECK_DEADLOCK FALSE\n"
     r = run_tlc(module + "MC", cfgtxt, files=[(module + "MC.tla", MC_TEMPLATE % {"mod": module})], env={"CFG_FILE": f}, timeout=1500, workers=4)
     run.add_mc(module + "MC(QStep,GenEmit)", r, {"configurations": len(cfgs)})
     js = r.json_prints("sched")
@@ -298,6 +311,18 @@ def check(run, replay=None):
             tasks.append(lambda: model_mc(run, "Unbound", pid, ucfgs, d))
             tasks.append(lambda: queue_mc(run, th))
             tasks.append(lambda: model_gen(run, "Unbound", ucfgs, d, urng, glimit))
+        # liveness under fairness on small configurations of the models (no history variable)
+        if pid == "C06":
+            lcf = [C(kind=k, cap=c, mode="try" if k in ("Map", "FMap") else "pure", inputs=[[1, 2]] if not th else [[1, 2, 3]], fail=[2] if k in ("Map", "FMap") else [],
+                     pred=[1], n=1, monoid="digits9", gate=g) for k in SEQ_KINDS for c in (0, 1) for g in (False, True) if not (g and k in ("Take", "Void"))]
+            lcf.append(C(kind="Map", cap=1, mode="lift", inputs=[[1, 2]], fail=[1], stderr=True))
+            tasks.append(lambda: model_live(run, "Stage", lcf, d, "EventuallyGone"))
+        if pid == "C09":
+            lcf = [C(kind=k, forked=True, par=2, cap=c, mode="try" if k in ("Map", "FMap") else "pure", inputs=[[1, 2]], fail=[2] if k in ("Map", "FMap") else [], pred=[1], gate=(c == 0 and k != "Void"))
+                   for k in ("Map", "FMap", "Filter", "Partition", "ForEach", "Void") for c in (0, 1)]
+            tasks.append(lambda: model_live(run, "Stage", lcf, d, "EventuallyGone"))
+        if pid == "C08":
+            tasks.append(lambda: model_live(run, "Unbound", [C(kind="New", cap=c, inputs=[[1, 2, 3]] if not th else [[1, 2, 3, 4]]) for c in (0, 1, 2)], d, "EventuallyClosed"))
         ntl = len(tasks)
         if pid in ("C06", "C07", "C11", "C12", "C13"):
             tasks += clocked_models(run, pid, th, d, rng)
